@@ -606,8 +606,16 @@ def _ghost_int(name):
     return z3.Int('ghost.' + name)
 
 
+
+def _is_int(x):
+    """IsInt of a term that may already be of integer sort (a local whose C++ type changed from double to int keeps the meaning)"""
+    x = getattr(x, 'z', x)
+    if z3.is_expr(x) and x.sort() == z3.IntSort():
+        return z3.BoolVal(True)
+    return z3.IsInt(x)
+
 BASE_NS = {
-    'ghost_int': _ghost_int, 'IsInt': z3.IsInt,
+    'ghost_int': _ghost_int, 'IsInt': _is_int,
     'pow2': _pow2,
     'add': _arith('+'), 'sub': _arith('-'), 'mul': _arith('*'), 'div': _arith('/'), 'eqv': eqv,
     'cx': cx, 'CDIV_DEF': cdiv_def, 'INSLICE': INSLICE, 'INSLICE_AX': inslice_ax, 'INSLICE_AT': inslice_at, 'INSLICE_BASE': inslice_base, 'INSLICE_STEP': inslice_step,
